@@ -339,3 +339,6 @@ def check(run):
     r6_certs_filter(run)
     from ..common_rules import memo_rule
     memo_rule(run, "R7", {"mdstore", "sigver"}, "certificate and key lookups")
+    from ..common_rules import misplaced_rule
+    misplaced_rule(run, "R8", {"sigver", "response", "entity"},
+                   "signature checking (issuer / key / certificate arguments)")
